@@ -16,9 +16,8 @@ from .common import cZ, cnat, cbool, clist, copt, cpair
 # (ordered blocking collection).  The lead flips this when the fix is applied.
 MAP_FIXED = os.environ.get("C14_MAP_FIXED", "1") == "1"   # default: the repaired code (fix c80ac95 applied in /repo)
 
-ORDER_CLASS = "map-order-multiprocess"
-RACE_CLASS = "run-jobs-startup-race"
-GRIDFAIL_CLASS = "grid-parallel-failing-cell"
+# the classes of the three repaired findings (map-order-multiprocess, run-jobs-startup-race, grid-parallel-failing-cell)
+# are no longer attached to any failure: those failures are violations again
 SNEAKIER_CLASS = "sneakier-two-pools-constructed"
 
 
@@ -221,8 +220,9 @@ def gen_jobs_free(rng):
 
 
 FIXED_CASES = [
-    # the reading-time suspicion: two workers, the second finishes first
-    {"kind": "smap", "procs": 2, "batches": [{"jobs": [[5, 0], [6, 0]], "sched": [["F", 1], ["P"], ["P"], ["F", 0]]}]},
+    # the reading-time suspicion: two workers, the second finishes first (former finding, fixed by c80ac95: pinned)
+    {"kind": "smap", "procs": 2, "batches": [{"jobs": [[5, 0], [6, 0]], "sched": [["F", 1], ["P"], ["P"], ["F", 0]]}],
+     "pin": "sneaky-map-completion-order"},
     # a failing job between two good ones, then a second batch on the same pool
     {"kind": "smap", "procs": 2, "batches": [
         {"jobs": [[1, 0], [2, 1], [3, 0]], "sched": [["F", 0], ["F", 1], ["F", 0]]},
@@ -231,7 +231,7 @@ FIXED_CASES = [
     {"kind": "smap", "procs": 3, "batches": [{"jobs": [], "sched": [["P"]]}, {"jobs": [[9, 1]], "sched": [["F", 0]]}]},
     {"kind": "init", "n": 2, "total": 3,
      "stream": [["ok", 10], ["ok", 20], ["fitexc", 0], ["ok", 40], ["ok", 50], ["ok", 60]],
-     "scheds": [[["F", 1], ["P"], ["P"], ["F", 0]]] * 6},
+     "scheds": [[["F", 1], ["P"], ["P"], ["F", 0]]] * 6, "pin": "sneaky-map-completion-order"},
     {"kind": "jobs", "cores": 3, "jobs": [[1, 0], [2, 0], [3, 1], [4, 0]],
      "sched": [["T", 1], ["T", 0], ["P"], ["T", 1], ["T", 1], ["P"], ["T", 0]]},
     # an exception early: the double count ends the collection before every job has been taken
@@ -243,7 +243,8 @@ FIXED_CASES = [
         {"jobs": [[8, 0], [9, 0]], "fitpos": 2, "sched": [["F", 1], ["F", 0]]}]},
     {"kind": "smap_twofit", "procs": 2},
     # the real callers, one failing cell
-    {"kind": "grid_fit", "n": 3, "grid": ["a"], "cores": 3, "fail": [1], "sched": [["T", 1], ["T", 0], ["P"], ["T", 1], ["P"], ["P"], ["P"]]},
+    {"kind": "grid_fit", "n": 3, "grid": ["a"], "cores": 3, "fail": [1], "sched": [["T", 1], ["T", 0], ["P"], ["T", 1], ["P"], ["P"], ["P"]],
+     "pin": "grid-parallel-failing-cell"},
     {"kind": "sens_fit", "n": 3, "cores": 3, "fail": [2], "sched": [["T", 1], ["T", 0], ["P"], ["T", 1], ["P"], ["P"], ["P"]]},
     # two SneakierPools constructed before the first is used
     {"kind": "sneakier", "procs": 2, "order": "constructed-first", "pools": [{"mul": 3, "xs": [1, 2, 3]}, {"mul": 100, "xs": [1, 2]}]},
@@ -268,7 +269,7 @@ def gen_cases(ctx):
     cases += [{"kind": "emcee_run", "procs": rng.choice([2, 3, 4]), "walkers": rng.choice([6, 8, 10]), "steps": rng.choice([3, 5]),
                "seed": rng.randrange(10 ** 6)} for _ in range(3 * k)]
     # quick jobs, free-running, many calls: does run_jobs always return?
-    cases.append({"kind": "jobs_race", "cores": 3, "jobs": 3, "repeat": 100})
+    cases.append({"kind": "jobs_race", "cores": 3, "jobs": 3, "repeat": 100, "pin": "run-jobs-startup-race"})
     if thorough:
         cases.append({"kind": "jobs_race", "cores": 2, "jobs": 1, "repeat": 300})
         cases.append({"kind": "jobs_race", "cores": 4, "jobs": 6, "repeat": 100})
@@ -315,7 +316,7 @@ def oracle(c, r):
             hard, order = oracle_batch(c["procs"], b["serial"], b)
             out += [("batch %d: %s" % (bi, h), []) for h in hard]
             if order:
-                cls = [ORDER_CLASS] if c["procs"] >= 2 and len(batch["jobs"]) >= 2 else []
+                cls = []
                 out.append(("batch %d: %s" % (bi, order), cls))
         return out
     if k == "emcee":
@@ -324,7 +325,7 @@ def oracle(c, r):
             out.append(("emcee log_prob %s is not a rearrangement of the serial values %s" % (r["log_prob"], exp), []))
         elif r["log_prob"] != exp:
             out.append(("emcee compute_log_prob returned %s for walkers whose serial values are %s" % (r["log_prob"], exp),
-                        [ORDER_CLASS] if c["procs"] >= 2 else []))
+                        []))
         if any(e != 1 for e in r["evals"]):
             out.append(("evaluation counts %s" % r["evals"], []))
         if any(r["pend"]) or any(r["resq"]):
@@ -345,7 +346,7 @@ def oracle(c, r):
             return out
         if errs:
             out.append(("a drawn point raised %s but samples_from_model returned normally" % errs, []))
-        cls = [ORDER_CLASS] if c["n"] >= 2 else []
+        cls = []
         if len(r["ks"]) != c["total"] or r["uks"] != r["ks"] or len(r["foms"]) != len(r["ks"]):
             out.append(("returned %d points for total_points=%d (units %s, parameters %s)" % (len(r["ks"]), c["total"], r["uks"], r["ks"]), []))
             return out
@@ -385,10 +386,8 @@ def oracle(c, r):
             if not par["raised"]:
                 out.append(("cells %s fail but the parallel run returned normally" % c["fail"], []))
             elif par["raised"][0] != "CellError" or par["raised"][1] not in c["fail"]:
-                known = (k == "grid_fit" and par["raised"][0] == "AttributeError" and "number" in str(par["raised"][1]))
                 out.append(("cells %s fail: number_of_cores=1 raises %s, number_of_cores=%d raises %s (the failing fit's own "
-                            "exception is not what the caller gets)" % (c["fail"], ser["raised"], c["cores"], par["raised"]),
-                            [GRIDFAIL_CLASS] if known else []))
+                            "exception is not what the caller gets)" % (c["fail"], ser["raised"], c["cores"], par["raised"]), []))
             return out
         if ser["raised"] or par["raised"]:
             out.append(("no cell fails but an exception was reported: serial %s parallel %s" % (ser["raised"], par["raised"]), []))
@@ -413,10 +412,10 @@ def oracle(c, r):
             out.append(("%d of %d free-running run_jobs calls returned wrong results" % (r["wrong"], r["calls"]), []))
         if r.get("stuck"):
             out.append(("%d of %d free-running run_jobs calls returned but left a worker process that was still alive 60 s later "
-                        "(blocked in job_queue.get(): it never received a job or its StopCommand)" % (r["stuck"], r["calls"]), [RACE_CLASS]))
+                        "(blocked in job_queue.get(): it never received a job or its StopCommand)" % (r["stuck"], r["calls"]), []))
         if r["hangs"]:
             out.append(("%d of %d free-running run_jobs calls on %d quick jobs never returned (every worker found the shared "
-                        "job queue still empty and exited; the main loop polls forever)" % (r["hangs"], r["calls"], c["jobs"]), [RACE_CLASS]))
+                        "job queue still empty and exited; the main loop polls forever)" % (r["hangs"], r["calls"], c["jobs"]), []))
         return out
     if k in ("jobs", "jobs_free"):
         serial = r["serial"]
@@ -666,7 +665,7 @@ def run(ctx):
     coq_cases, coq_idx = [], []
     fails = {}
     for i, (c, r) in enumerate(zip(cases, results)):
-        ctx.count_case(normal_form(c), nontrivial(c), c["kind"])
+        ctx.count_case({kk: v for kk, v in normal_form(c).items() if kk != "pin"}, nontrivial(c), c["kind"])
         ctx.oracle["cases"] += 1
         d = describe(c)
         ctx.hist("workers", d["procs"] if "procs" in d else d["cores"] - 1 if "cores" in d else d["n"])
@@ -681,7 +680,7 @@ def run(ctx):
             ctx.oracle["failures"] += 1
             # a free-running run_jobs call that never returns is the start-up race of Process.run (known finding);
             # the label describes the case (kind), it is only attached to this failure mode
-            cls = [RACE_CLASS] if c["kind"] == "jobs_free" and r["exc"] == "RaceHang" else []
+            cls = []
             ctx.failure("oracle", "implementation did not complete: %s: %s" % (r["exc"], r.get("msg")), c, classes=cls, impl=r)
             fails[i] = True
             continue
@@ -698,6 +697,19 @@ def run(ctx):
             coq_idx.append(i)
         if i % 29 == 0:
             ctx.sample({"case": d}, limit=10)
+    # former findings, repaired in /repo: their pinned cases must pass now (a fixed entry suppresses nothing)
+    pins = {}
+    for i, c in enumerate(cases):
+        if c.get("pin"):
+            pins.setdefault(c["pin"], []).append(i)
+    for sig in ("sneaky-map-completion-order", "run-jobs-startup-race", "grid-parallel-failing-cell"):
+        idx = pins.get(sig, [])
+        if not idx and ctx.replay:
+            continue
+        bad = [i for i in idx if fails.get(i, True)]
+        ctx.obligation("regression:" + sig, "regression", bool(idx) and not bad,
+                       "%d pinned case(s) of the repaired finding pass" % len(idx) if idx and not bad else
+                       "pinned cases %s of the repaired finding fail again" % [describe(cases[i]) for i in bad] if idx else "no pinned case ran")
     if os.path.exists(os.path.join(common.COQ, "C14", "Model.vo")):
         hdr = ctx.header(["Model"])
         bad, log = ctx.eval_cases(hdr, "case", "check_case", coq_cases, shard=40)
@@ -728,8 +740,8 @@ MANIFEST = {
             "results, run_jobs stress, SneakierPool). The behaviour before the two repairs is kept as refuted statements.",
     "note": "Trusted: Coq kernel + vm_compute, the steering harness (semaphore gates, proxies around the parent-side queues; code "
             "under test unmodified), FIFO/no-loss semantics of multiprocessing.Queue. Schedules are atomic interleavings; worker "
-            "death, abandoned generators and MPI pools are out of scope (stated in the evidence). Known findings: "
-            "grid-parallel-failing-cell (fix proposed), sneakier-two-pools-constructed; fixed: sneaky-map-completion-order, "
-            "run-jobs-startup-race.",
+            "death, abandoned generators and MPI pools are out of scope (stated in the evidence). Known finding: "
+            "sneakier-two-pools-constructed; fixed in /repo and pinned by regression obligations: sneaky-map-completion-order "
+            "(c80ac95), run-jobs-startup-race (67a753d), grid-parallel-failing-cell (74ff428).",
     "technique": "machine-checked proof in Coq (schedule-quantified transition systems) + vm_compute correspondence under steered schedules",
 }
